@@ -34,9 +34,13 @@ CLAIMED = {
   note="Assumed: spawned goroutines eventually run and do not interfere (schedules are out of scope); encoding/json and centrifuge delivery; webhook channel see C12.",
   design="4 C11"),
  "C07": dict(
-  text="Deductive proof of the containment logic reached so far: a hash is treated as forbidden iff it equals one of the network's HeadersToIgnore (ignoreBlockHash, loop invariant), a forbidden submission leaves the store and the notification count unchanged and is answered BlockRejected (Add, shared with C01), and the experimental engine's checkpoint search returns exactly the first checkpoint above the given height (findNextCheckpoint, pointers into the checkpoint slice modelled as element references).",
-  note="Not yet covered: the peer-side reactions (disconnect/ban in SyncManager.handleHeadersMsg and Peer.handleHeadersMsg, checkpoint mismatch handling, the getheaders request after a checkpoint) and the convergence clause (C06, not applicable). Checkpoints are assumed sorted ascending (a requires).",
+  text="Deductive proof of the containment logic: a hash is treated as forbidden iff it equals one of the network's HeadersToIgnore (ignoreBlockHash, loop invariant); a forbidden submission leaves the store and the notification count unchanged and is answered BlockRejected (Add, shared with C01); the default engine's verifyCheckpointHeight passes the batch flag through off the checkpoint height, sets it on a matching header and disconnects the peer (ghost DISC) with an error on a differing one; findNextHeaderCheckpoint / findNextCheckpoint return exactly the first checkpoint above the given height (pointers into the checkpoint slice modelled as element references, backward loop invariant); sendGetHeadersWithPassedParams issues exactly one getheaders with the given stop hash (ghost GETHDR). The batch loop of SyncManager.handleHeadersMsg itself is not yet under contract.",
+  note="Assumed: Peer.Disconnect/PushGetHeadersMsg/PeerNotifier.BanPeer effect contracts (ghost counters; sockets are outside), checkpoints sorted ascending (a requires). Not covered: the convergence clause (C06, not applicable), server.go handleBanPeerMsg (see C18), 'never served by any endpoint' follows from 'never stored' (C04 reads return stored records only).",
   design="4 C07"),
+ "C04": dict(
+  text="Deductive proof, over the ghost header table HS and for every structurally valid stored tree, of the HeaderService queries: by hash returns the stored record or 404; tip returns a longest-chain record of maximal height; by-height returns only stored records of the mathematical window [height, height+count-1] and every longest-chain record in it; ancestors(hash, ancestor) succeeds only when ancestor is an ancestor (anc, inductive lemmas) and always when it is a proper one; common-ancestor returns an ancestor of every given header strictly below the lowest given height and no higher header qualifies (four loops with invariants, areAllElementsEqual); HS is in no query's frame (reads never modify the store). The L1 repository glue and the trusted SQL reads are checked by the bounded stand-in storelab on real SQLite.",
+  note="Assumed: repository.Headers port contracts (SQL is trusted L0; bounded conformance by storelab: quick all trees of <=4 headers, thorough <=5); GetTips' 'every leaf of a stale or orphan branch' is carried by the port contract of GetAllTips only (storelab-checked, not proved); reads succeed (rok); HTTP layer see C16.",
+  design="4 C04"),
  "C09": dict(
   text="Deductive proof of the authentication middleware (parseAuthHeader: only 'Bearer <t>' without spaces passes; getToken: every token-service error becomes 401; ApplyToAPI: with auth enabled either one structured 401 + abort + nothing set, or the token is set and nothing is written; with auth disabled no effect) and of the admin wrapper (validateToken, RequireAdmin and its closure: the wrapped handler is invoked iff the context holds an admin *domains.Token, otherwise one structured error, aborted, stores untouched), plus structural SSA-provenance obligations (no solver): every RegisterAPIEndpoints implementation registers routes only on the group it is given, SetupRoutes passes engine.Group(\"/api/v1\", authentication middlewares...) to each of them, the mutating /access routes are wrapped by RequireAdmin(handler, cfg.UseAuth), and the unauthenticated registrations are exactly status, swagger, pprof, metrics and the websocket upgrade.",
   note="Assumed: gin runs group middleware before handlers and AbortWithStatusJSON stops the chain; strings.Split contract; the route table as gin materialises it at run time is not observed. The structural obligations are syntactic facts about the SSA, enumerated from the code on every run.",
